@@ -229,8 +229,14 @@ class _SuperLU:
         if trans not in ('N', 'T', 'H'):
             raise ValueError("trans must be N, T, or H")
         A = self.A
-        zl = all((not isinstance(A[i, j], (R, C))) and A[i, j] == 0 for i in range(A.shape[0]) for j in range(i + 1, A.shape[1]))
-        zu = all((not isinstance(A[i, j], (R, C))) and A[i, j] == 0 for i in range(A.shape[0]) for j in range(0, i))
+        def _z(e):      # concretely zero entry (plain number, or a symbolic scalar carrying the concrete value 0)
+            if isinstance(e, R):
+                return e.q is not None and e.q == 0
+            if isinstance(e, C):
+                return e.re.q is not None and e.re.q == 0 and e.im.q is not None and e.im.q == 0
+            return e == 0
+        zl = all(_z(A[i, j]) for i in range(A.shape[0]) for j in range(i + 1, A.shape[1]))
+        zu = all(_z(A[i, j]) for i in range(A.shape[0]) for j in range(0, i))
         if zl or zu:
             return solve_triangular(A, rhs, trans={'N': 'N', 'T': 'T', 'H': 'C'}[trans], lower=zl and not zu or (zl and zu))
         _ctx.current().stubs.add("scipy.sparse.linalg.splu(...).solve (contract oracle: op(A) x = b)")
